@@ -8,14 +8,14 @@
    "0 * x" clutter, so that the coefficient of r^k cos(m theta) of a product is obtained by plain
    computation ([cbv]) as a small explicit real expression in the atoms.
 
-   Soundness proved here (axiom-free beyond the real numbers):
-     [teval_tadd], [teval_tscal], [teval_tneg], [teval_tsub], and the product-to-sum product
-     [teval_tmul] :  teval (tmul p q) th = teval p th * teval q th,
-     plus [teval_tdth_derive]: teval (tdth p) is the derivative of teval p with respect to the angle.
-   The r-direction is the usual Cauchy product of polynomials ([smul]); [seval_smul] proves it sound for
-   evaluation of the partial sums up to any order N modulo terms of order > N is NOT needed: every
-   series built in the specification is a polynomial in r, and [spoly_eval_smul] is not required by
-   the statements, which are about individual coefficients [r^k, harmonic m]. *)
+   Soundness proved here (no axiom beyond the real numbers):
+     [teval_tadd], [teval_tscal], [teval_tneg], [teval_tsub];
+     [teval_tmul]  : teval (tmul p q) th = teval p th * teval q th        (product-to-sum product);
+     [teval_tdth_derive] : teval (tdth p) is the derivative of teval p with respect to the angle;
+     [seval_smul]  : for polynomials in r of degrees dp, dq the value of the Cauchy product [smul] truncated at any
+                     order N >= dp + dq is the product of the values;
+     [tzero_eval], [tzero_tcos], [tzero_tsin] : a trigonometric polynomial all of whose coefficients vanish
+                     evaluates to 0, and conversely each extracted coefficient is 0. *)
 From Coq Require Import Reals List Arith Lra Lia.
 Import ListNotations.
 Open Scope R_scope.
@@ -258,3 +258,49 @@ Definition vscal (c : cf) (u : vec) : vec := (sscal c (vx u), sscal c (vy u), ss
 (* pointwise soundness of the series operations, coefficient by coefficient *)
 Lemma teval_ssum n f th : teval (ssum n f) th = (fix go n := match n with O => teval (f O) th | S n' => go n' + teval (f (S n')) th end) n.
 Proof. induction n; cbn [ssum]; [reflexivity|]. rewrite teval_tadd, IHn. reflexivity. Qed.
+
+Lemma tzero_nth p : tzero p -> forall m, cv (fst (nth m p (Z0, Z0))) = 0 /\ cv (snd (nth m p (Z0, Z0))) = 0.
+Proof.
+  induction 1 as [|ab l Hab Hl IH]; intros m.
+  - destruct m; simpl; split; reflexivity.
+  - destruct m; cbn [nth]; [exact Hab | apply IH].
+Qed.
+Lemma tzero_tcos p : tzero p -> forall m, tcos p m = 0.
+Proof. intros H m. apply (tzero_nth p H m). Qed.
+Lemma tzero_tsin p : tzero p -> forall m, tsin p m = 0.
+Proof. intros H m. apply (tzero_nth p H m). Qed.
+
+(* ---------- soundness of the Cauchy product for polynomials in r ---------- *)
+Definition sterm (p : ser) (r th : R) (k : nat) : R := r ^ k * teval (p k) th.
+Lemma seval_sum N p r th : seval N p r th = sum_f_R0 (sterm p r th) N.
+Proof.
+  induction N; cbn [seval sum_f_R0].
+  - unfold sterm. simpl. ring.
+  - rewrite IHN. unfold sterm. reflexivity.
+Qed.
+Lemma teval_ssum_sum n f th : teval (ssum n f) th = sum_f_R0 (fun j => teval (f j) th) n.
+Proof. induction n; cbn [ssum sum_f_R0]; [reflexivity|]. rewrite teval_tadd, IHn. reflexivity. Qed.
+Lemma sterm_smul p q r th k :
+  sterm (smul p q) r th k = sum_f_R0 (fun j => sterm p r th j * sterm q r th (k - j)) k.
+Proof.
+  unfold sterm, smul. rewrite teval_ssum_sum, scal_sum. apply sum_eq. intros j Hj.
+  rewrite teval_tmul. replace (r ^ k) with (r ^ j * r ^ (k - j)) by (rewrite <- pow_add; f_equal; lia). ring.
+Qed.
+(* if p and q are polynomials in r of degrees dp and dq, the value of the formal product truncated at any
+   order N >= dp + dq is the product of the values *)
+Theorem seval_smul p q dp dq N r th :
+  (forall k, (dp < k)%nat -> teval (p k) th = 0) -> (forall k, (dq < k)%nat -> teval (q k) th = 0) ->
+  (dp + dq <= N)%nat ->
+  seval N (smul p q) r th = seval N p r th * seval N q r th.
+Proof.
+  intros Hp Hq HN. rewrite !seval_sum.
+  destruct N as [|N].
+  - cbn [sum_f_R0]. rewrite sterm_smul. cbn [sum_f_R0 Nat.sub]. reflexivity.
+  - rewrite (cauchy_finite (sterm p r th) (sterm q r th) (S N)) by lia.
+    rewrite (sum_eq_R0 (fun k => sum_f_R0 (fun l => sterm p r th (S (l + k)) * sterm q r th (S N - l)) (pred (S N - k)))).
+    + rewrite Rplus_0_r. apply sum_eq. intros k Hk. apply sterm_smul.
+    + intros k Hk. apply sum_eq_R0. intros l Hl. unfold sterm.
+      destruct (le_lt_dec (S (l + k)) dp) as [Hle|Hgt].
+      * rewrite (Hq (S N - l)%nat) by lia. ring.
+      * rewrite (Hp (S (l + k))) by lia. ring.
+Qed.
